@@ -28,7 +28,7 @@ for p in props:
         na.append({"property_id": pid, "reason": claimed['not_applicable'].get(pid, "not claimed: no sound solver-based check has been built for this property yet")})
 m = {
     "version": 1,
-    "setup_cmd": "./build.sh",
+    "setup_cmd": "./build.sh && ./check --conf",
     "hooks": {
         "guard": "verif",
         "enable": "no hooks are needed: harnesses use the public API only and observers are engine monitors; nothing in /repo is guarded by the tag",
